@@ -243,7 +243,11 @@ def check_C12(tier):
     rep = api_check("C12", tier, API_INVARIANTS, "")
     # rejection reasons that a TLA+ table cannot carry: wrong types
     sf = de.selfies_mod()
-    bad_args = [None, 5, 3.5, ["C"], ("default",), {"C": "4", "?": 8}, {"C": None, "?": 8}, {"?": 8.0}, "no_such", b"default"]
+    bad_args = [None, 5, 3.5, ["C"], ("default",), {"C": "4", "?": 8}, {"C": None, "?": 8}, {"?": 8.0}, "no_such", b"default",
+                {"?": -1}, {"?": 2.5}, {"?": "8"}, {"?": None}, {"C": 4, "?": -3},
+                {"N+1 ": 3, "?": 8}, {"N+ 1": 3, "?": 8}, {"O-\t2": 1, "?": 8}, {"N+1\n": 3, "?": 8}, {"Fe+1_0": 2, "?": 8},
+                {"N+\u0661": 3, "?": 8}, {"Cu+\uff12": 2, "?": 8}, {"C+\u00b2": 2, "?": 8}, {" C": 4, "?": 8}, {"C ": 4, "?": 8},
+                {"N++1": 3, "?": 8}, {"N+-1": 3, "?": 8}, {"n": 3, "?": 8}, {"": 3, "?": 8}, {"?": 8, "??": 1}]
     for arg in bad_args:
         before = (sf.get_semantic_constraints(), set(sf.get_semantic_robust_alphabet()), de.call_decoder("[C][=C][#N][=O]"))
         try:
